@@ -5,8 +5,29 @@ go 1.21
 require github.com/bartossh/Computantis/src v0.0.0
 
 require (
+	github.com/cespare/xxhash/v2 v2.2.0 // indirect
+	github.com/dgraph-io/badger/v4 v4.2.0 // indirect
+	github.com/dgraph-io/ristretto v0.1.1 // indirect
+	github.com/dustin/go-humanize v1.0.0 // indirect
+	github.com/emirpasic/gods v1.18.1 // indirect
+	github.com/gogo/protobuf v1.3.2 // indirect
+	github.com/golang/glog v1.1.0 // indirect
+	github.com/golang/groupcache v0.0.0-20190702054246-869f871628b6 // indirect
+	github.com/golang/protobuf v1.5.3 // indirect
+	github.com/golang/snappy v0.0.3 // indirect
+	github.com/google/flatbuffers v1.12.1 // indirect
+	github.com/google/uuid v1.5.0 // indirect
+	github.com/heimdalr/dag v1.3.1 // indirect
+	github.com/klauspost/compress v1.17.1 // indirect
+	github.com/mr-tron/base58 v1.2.0 // indirect
+	github.com/pkg/errors v0.9.1 // indirect
 	github.com/shamaton/msgpack/v2 v2.1.1 // indirect
 	github.com/vmihailenco/msgpack v4.0.4+incompatible // indirect
+	go.mongodb.org/mongo-driver v1.12.1 // indirect
+	go.opencensus.io v0.22.5 // indirect
+	golang.org/x/net v0.23.0 // indirect
+	golang.org/x/sys v0.18.0 // indirect
+	google.golang.org/protobuf v1.33.0 // indirect
 )
 
 replace github.com/bartossh/Computantis/src => /repo/src
